@@ -53,8 +53,8 @@ def check(ctx):
                "the public instance attributes (same ids, field values and custom attributes in the result) - shared rule with C10")
 
     def faithful(o):
-        from . import c10
-        c10._fields(ctx, o)
+        from .clone_common import clone_provenance
+        clone_provenance(ctx, o, ('fields',))
     ctx.guarded(o, faithful)
 
     o = ctx.ob('scheduler_frame', 'R9a',
